@@ -366,4 +366,122 @@ theorem groupStep_sound (P : NumPr) (hP : NumExact P) (st : MSt) (Sin Sout : St)
               rw [lc_noncubic Sout rel k cs hs hkc, ← hlc, lc_noncubic Sout rel r.k r.cs RW.shaped hnc]
             · simp only [advance]; exact hlc
 
+/-! ## lists of groups and instructions -/
+
+theorem segsFrom_append (S : St) (a b : List Cmd) : segsFrom S (a ++ b) = segsFrom S a ++ segsFrom (runSpec S a) b := by
+  induction a generalizing S with
+  | nil => rfl
+  | cons c r ih => simp [segsFrom, runSpec, ih, List.append_assoc]
+
+theorem runSpec_append (S : St) (a b : List Cmd) : runSpec S (a ++ b) = runSpec (runSpec S a) b := by
+  induction a generalizing S with
+  | nil => rfl
+  | cons c r ih => simp [runSpec, ih]
+
+theorem groupsCmds_append (ps : PState) (a b : List OutGroup) :
+    groupsCmds ps (a ++ b) = groupsCmds ps a ++ groupsCmds (stateAfter ps a) b := by
+  induction a generalizing ps with
+  | nil => rfl
+  | cons g r ih => simp [groupsCmds, stateAfter, ih]
+
+theorem stateAfter_append (ps : PState) (a b : List OutGroup) :
+    stateAfter ps (a ++ b) = stateAfter (stateAfter ps a) b := by
+  induction a generalizing ps with
+  | nil => rfl
+  | cons g r ih => simp [stateAfter, ih]
+
+/-- class of the last command of a list (the given class for the empty list) -/
+def classAfter : St → PrevClass → List Cmd → PrevClass
+  | _, p, [] => p
+  | s, _, c :: r => classAfter (stepCmd s c).1 (classify s c) r
+
+theorem classAfter_append (S : St) (p : PrevClass) (a b : List Cmd) :
+    classAfter S p (a ++ b) = classAfter (runSpec S a) (classAfter S p a) b := by
+  induction a generalizing S p with
+  | nil => rfl
+  | cons c r ih => simp [classAfter, runSpec, ih]
+
+theorem hazardsFrom_append (S : St) (p : PrevClass) (a b : List Cmd) :
+    hazardsFrom S p (a ++ b) = hazardsFrom S p a ++ hazardsFrom (runSpec S a) (classAfter S p a) b := by
+  induction a generalizing S p with
+  | nil => rfl
+  | cons c r ih => simp [hazardsFrom, classAfter, runSpec, ih, List.append_assoc]
+
+theorem hazardAt_none_of_nil (S : St) (p : PrevClass) (c : Cmd) (r : List Cmd) (h : hazardsFrom S p (c :: r) = []) :
+    hazardAt p c = none ∧ hazardsFrom (stepCmd S c).1 (classify S c) r = [] := by
+  simp only [hazardsFrom, List.append_eq_nil_iff] at h
+  refine ⟨?_, h.2⟩
+  cases hh : hazardAt p c with
+  | none => rfl
+  | some x => rw [hh] at h; simp at h
+
+/-- the input commands of the groups of one instruction -/
+def cmdsOf (k0 : Kind) (rel : Bool) : Bool → List (List Coord) → List Cmd
+  | _, [] => []
+  | first, g :: r => ⟨groupKind k0 first, rel, vals g⟩ :: cmdsOf k0 rel false r
+
+/-- what holds after a run of groups -/
+structure RunOK (P : NumPr) (st : MSt) (Sin Sout : St) (prev : PrevClass) (cmds : List Cmd)
+    (res : MSt × List OutGroup) : Prop where
+  segs : (segsFrom Sout (groupsCmds st.ps res.2)).filterMap simp1 = (segsFrom Sin cmds).filterMap simp1
+  base : Base res.1 (runSpec Sin cmds) (runSpec Sout (groupsCmds st.ps res.2))
+  rel : RelP (classAfter Sin prev cmds) res.1 (runSpec Sin cmds) (runSpec Sout (groupsCmds st.ps res.2))
+  ps : res.1.ps = stateAfter st.ps res.2
+
+theorem RunOK.nil (P : NumPr) (st : MSt) (Sin Sout : St) (prev : PrevClass) (hb : Base st Sin Sout)
+    (hr : RelP prev st Sin Sout) : RunOK P st Sin Sout prev [] (st, []) :=
+  ⟨rfl, hb, hr, rfl⟩
+
+/-- sequential composition -/
+theorem RunOK.append {P : NumPr} {st : MSt} {Sin Sout : St} {prev : PrevClass} {c1 c2 : List Cmd}
+    {r1 r2 : MSt × List OutGroup}
+    (h1 : RunOK P st Sin Sout prev c1 r1)
+    (h2 : RunOK P r1.1 (runSpec Sin c1) (runSpec Sout (groupsCmds st.ps r1.2)) (classAfter Sin prev c1) c2 r2) :
+    RunOK P st Sin Sout prev (c1 ++ c2) (r2.1, r1.2 ++ r2.2) := by
+  have hps := h1.ps
+  refine ⟨?_, ?_, ?_, ?_⟩
+  · simp only [groupsCmds_append, segsFrom_append, List.filterMap_append, h1.segs]
+    rw [← hps, h2.segs]
+  · simp only [groupsCmds_append, runSpec_append]
+    rw [← hps]; exact h2.base
+  · simp only [groupsCmds_append, runSpec_append, classAfter_append]
+    rw [← hps]; exact h2.rel
+  · simp only [stateAfter_append]; rw [← hps]; exact h2.ps
+
+theorem groupLoop_sound (P : NumPr) (hP : NumExact P) (k0 : Kind) (rel single : Bool) (next : Option Kind) :
+    ∀ (gs : List (List Coord)) (st : MSt) (Sin Sout : St) (prev : PrevClass) (first : Bool),
+    Base st Sin Sout → RelP prev st Sin Sout →
+    (∀ g ∈ gs, Shaped k0 g ∧ CoordsOk k0 0 g) → (k0 = .A ∨ k0 ≠ .A) →
+    hazardsFrom Sin prev (cmdsOf k0 rel first gs) = [] →
+    RunOK P st Sin Sout prev (cmdsOf k0 rel first gs) (groupLoop P k0 rel single next st first gs) := by
+  intro gs
+  induction gs with
+  | nil => intro st Sin Sout prev first hb hr _ _ _; exact RunOK.nil P st Sin Sout prev hb hr
+  | cons g r ih =>
+    intro st Sin Sout prev first hb hr hg hk hz
+    obtain ⟨hz1, hz2⟩ := hazardAt_none_of_nil Sin prev _ _ hz
+    obtain ⟨hsg, hcg⟩ := hg g (by simp)
+    have hs : Shaped (groupKind k0 first) g := groupKind_shaped k0 first g hsg.2 hsg.1
+    have hok : CoordsOk (groupKind k0 first) 0 g := by
+      unfold groupKind
+      split
+      · rename_i h
+        simp only [Bool.and_eq_true, beq_iff_eq] at h
+        rw [coordsOk_nonA _ (by decide)]
+        rw [h.2, coordsOk_nonA _ (by decide)] at hcg
+        exact hcg
+      · exact hcg
+    have h1 := groupStep_sound P hP st Sin Sout prev k0 rel first (first && single) g
+      (ctxOf st.ps k0 r.isEmpty next) hb hr hs hok hz1
+    have step1 : RunOK P st Sin Sout prev [⟨groupKind k0 first, rel, vals g⟩]
+        (groupStep P st k0 rel first (first && single) g (ctxOf st.ps k0 r.isEmpty next)) := by
+      refine ⟨?_, ?_, ?_, h1.2.2.2⟩
+      · simpa [segsFrom] using h1.1
+      · simpa [runSpec] using h1.2.1
+      · simpa [runSpec, classAfter] using h1.2.2.1
+    have h2 := ih _ _ _ _ false step1.base step1.rel (fun g' hg' => hg g' (by simp [hg'])) hk
+      (by simpa [runSpec, classAfter] using hz2)
+    have := RunOK.append step1 h2
+    simpa [cmdsOf, groupLoop] using this
+
 end Verif.Proofs.SvgInduct
